@@ -236,7 +236,7 @@ func TestVerif(t *testing.T) {
 	debug.SetGCPercent(400)
 
 	runOne := func(seed uint64, cj []byte, keepCase bool) {
-		emit(map[string]any{"start": seed})
+		emit(map[string]any{"start": seed, "case": json.RawMessage(cj)})
 		res := &vfResult{Seed: seed, Verdict: "ok"}
 		done := make(chan struct{})
 		go func() { // real-time watchdog (outside any bubble)
